@@ -23,7 +23,7 @@ VARIABLES l,    \* position of the next trace line
 TraceLog == ndJsonDeserialize("trace.ndjson")
 
 \* names the scenarios may use for extension files, in directory order (cfg: ExtOrder <- TraceExtOrder)
-TraceExtOrder == <<"e1", "e2", "e3", "e4", "e5", "e6", "e7", "e8", "e9", "f1", "f2">>
+TraceExtOrder == <<".e0", "e1", "e2", "e3", "e4", "e5", "e6", "e7", "e8", "e9", "f1", "f2">>
 
 tvars == <<st, l, tp, fl>>
 
